@@ -767,6 +767,14 @@ ICUTranscoder::transcodeTo( const   XMLCh* const    srcData
 bool ICUTranscoder::canTranscodeTo(const unsigned int toCheck)
 {
     //
+    //  Half of a surrogate pair is not a character, so no encoding has it.
+    //  The converter must not even be asked: it does not refuse a leading
+    //  surrogate, it keeps it back to pair it with whatever comes next.
+    //
+    if ((toCheck & 0xFFFFF800) == 0xD800)
+        return false;
+
+    //
     //  If the passed value is really a surrogate embedded together, then
     //  we need to break it out into its two chars. Else just one. While
     //  we are ate it, convert them to UChar format if required.
